@@ -1262,7 +1262,14 @@ Record kinv (ks : kstate) : Prop := {
   kj_dialing : forall a d, k_as ks a = ADialing d -> k_d ks d = Some (a, DPend);
   kj_failing : forall a d, k_as ks a = AFailing d -> exists cls, k_d ks d = Some (a, DFail cls false);
   kj_d_dom : forall d x, k_d ks d = Some x -> k_thr ks d <> None;
-  kj_sconn : forall i t h, k_thr ks i = Some t -> k_src t = SConn h -> exists a, k_d ks h = Some (a, DOk)
+  kj_sconn : forall i t h, k_thr ks i = Some t -> k_src t = SConn h -> exists a, k_d ks h = Some (a, DOk);
+  kj_d_as : forall d a o, k_d ks d = Some (a, o) ->
+            match o with
+            | DPend => k_as ks a = ADialing d
+            | DFail _ false => k_as ks a = AFailing d
+            | DOk => In d (k_closed ks) \/ k_as ks a = ALive d
+            | DFail _ true => True
+            end
 }.
 
 Lemma kinv_init : kinv kinit.
@@ -1376,6 +1383,7 @@ Proof.
     destruct (k_thr ks i) as [t|] eqn:E; [|congruence].
     destruct Ht as (t2 & Ht2 & Hs & _). assert (t2 = t') by congruence; subst t2.
     apply (kj_sconn ks K i t h E). congruence.
+  - intros d a o. rewrite Hd, Ha, Hcl. apply K.
 Qed.
 
 Lemma kinv_new_thread ks i src ret :
@@ -1402,6 +1410,7 @@ Proof.
   - intros j t h. upd_cases j i.
     + intros E; inversion E; subst t; cbn. apply Hs.
     + apply (kj_sconn ks K j t h).
+  - apply K.
 Qed.
 
 Lemma khandle_upd_d ks d a o src :
@@ -1425,9 +1434,11 @@ Lemma kinv_set_dial ks a d o A :
   | AIdle => True
   | ALive _ => False
   end ->
+  (o = DPend -> A = ADialing d) -> (forall cls, o = DFail cls false -> A = AFailing d) ->
+  (k_as ks a = AIdle \/ k_as ks a = ADialing d \/ k_as ks a = AFailing d) ->
   kinv (kset_d (kset_as ks (upd (k_as ks) a A)) (upd (k_d ks) d (Some (a, o)))).
 Proof.
-  intros K Hd Ho Ht HA.
+  intros K Hd Ho Ht HA Hp Hf Hno.
   assert (Hnok : forall a', k_d ks d <> Some (a', DOk)).
   { intros a' E. destruct Hd as [Hd|(o0 & Hd & Hn)]; congruence. }
   assert (Hkh : forall src, khandle (kset_d (kset_as ks (upd (k_as ks) a A)) (upd (k_d ks) d (Some (a, o)))) src = khandle ks src).
@@ -1457,6 +1468,14 @@ Proof.
   - cbn. intros d' x. upd_cases d' d; [subst; intros _; exact Ht|]. apply (kj_d_dom ks K d' x).
   - cbn. intros j t h Hj Hs. destruct (kj_sconn ks K j t h Hj Hs) as (a0 & E).
     upd_cases h d; [subst h; exfalso; eapply Hnok; eauto|eauto].
+  - cbn. intros d' a' o'. upd_cases d' d.
+    + subst d'. intros E; inversion E; subst a' o'. rewrite Nat.eqb_refl.
+      destruct o as [| |cls [|]]; auto; try congruence. eapply Hf; reflexivity.
+    + intros E. pose proof (kj_d_as ks K d' a' o' E) as X. upd_cases a' a; [subst a'|exact X].
+      destruct o' as [| |cls [|]]; auto.
+      * exfalso. destruct Hno as [H|[H|H]]; congruence.
+      * destruct X as [X|X]; [left; exact X|exfalso; destruct Hno as [H|[H|H]]; congruence].
+      * exfalso. destruct Hno as [H|[H|H]]; congruence.
 Qed.
 
 (** a dial succeeds *)
@@ -1492,6 +1511,12 @@ Proof.
   - cbn. intros d' x. upd_cases d' d; [subst; intros _; eapply kj_d_dom; eauto|]. apply (kj_d_dom ks K d' x).
   - cbn. intros j t h Hj Hs. destruct (kj_sconn ks K j t h Hj Hs) as (a0 & E).
     upd_cases h d; [subst h; congruence|eauto].
+  - cbn. pose proof (kj_d_as ks K d a DPend Hd) as Hda. cbn in Hda.
+    intros d' a' o'. upd_cases d' d.
+    + subst d'. intros E; inversion E; subst a' o'. right. now rewrite Nat.eqb_refl.
+    + intros E. pose proof (kj_d_as ks K d' a' o' E) as X. upd_cases a' a; [subst a'|exact X].
+      destruct o' as [| |cls [|]]; auto; try congruence.
+      destruct X as [X|X]; [left; exact X|congruence].
 Qed.
 
 (** a thread's flags change (passed / released), everything else stays *)
@@ -1515,26 +1540,21 @@ Proof.
   - intros j tj h. upd_cases j i.
     + subst j. intros E; inversion E; subst tj; cbn. apply (kj_sconn ks K i t h Ht).
     + apply (kj_sconn ks K j tj h).
+  - apply K.
 Qed.
 
 Lemma kinv_set_cancel ks v : kinv ks -> kinv (kset_cancel ks v).
 Proof. intros K. destruct K. constructor; assumption. Qed.
 
-Lemma khandle_dok ks src h :
-  kinv ks -> (forall i t, k_thr ks i = Some t -> k_src t = src -> True) ->
-  khandle ks src = Some h -> (forall h', src = SConn h' -> exists a, k_d ks h' = Some (a, DOk)) ->
-  exists a, k_d ks h = Some (a, DOk).
-Proof.
-  intros K _ Hk Hs. destruct src as [|d|h']; cbn in Hk; try discriminate.
-  - destruct (k_d ks d) as [[a [| |cls f]]|] eqn:E; try discriminate. inversion Hk; subst. eauto.
-  - inversion Hk; subst. apply Hs. reflexivity.
-Qed.
-
 Lemma kinv_close ks h a :
   kinv ks -> (forall j, In j (k_ids ks) -> kholds ks h j = false) -> k_d ks h = Some (a, DOk) ->
+  ~ In h (k_closed ks) ->
   kinv (kset_closed (kset_as ks (upd (k_as ks) a AIdle)) (h :: k_closed ks)).
 Proof.
-  intros K Hno Hd. constructor; cbn.
+  intros K Hno Hd Hnc.
+  assert (Hlive : k_as ks a = ALive h).
+  { pose proof (kj_d_as ks K h a DOk Hd) as X. cbn in X. destruct X; [contradiction|assumption]. }
+  constructor; cbn.
   - intros h' [<-|Hin] j t Hj Hk.
     + pose proof (Hno j (kj_dom ks K j t Hj)) as Hf. unfold kholds in Hf. rewrite Hj in Hf.
       change (khandle (kset_closed (kset_as ks (upd (k_as ks) a AIdle)) (h :: k_closed ks)) (k_src t))
@@ -1551,6 +1571,10 @@ Proof.
   - intros a' d. upd_cases a' a; [discriminate|]. apply (kj_failing ks K a' d).
   - apply K.
   - apply K.
+  - intros d' a' o' E. pose proof (kj_d_as ks K d' a' o' E) as X. upd_cases a' a.
+    + subst a'. destruct o' as [| |cls [|]]; auto; try congruence.
+      destruct X as [X|X]; [left; right; exact X|]. left. left. congruence.
+    + destruct o' as [| |cls [|]]; auto. destruct X as [X|X]; [left; right; exact X|right; exact X].
 Qed.
 
 Lemma kd_none_of_fresh ks i : kinv ks -> k_thr ks i = None -> k_d ks i = None.
@@ -1597,7 +1621,8 @@ Proof.
     + match goal with |- context[kwake ?x] => destruct (kwake x) as [ks2 rets] eqn:Ew; set (ks1 := x) in * end.
       cbn. apply (kinv_wake ks1 ks2 rets); [|now apply kwake_rel].
       unfold ks1. now apply kinv_dial_ok.
-    + cbn. apply (kinv_set_dial ks a d (DFail 2%N false) (AFailing d) K); cbn; try discriminate.
+    + cbn. pose proof (kj_d_as ks K d a DPend Ed) as Hda. cbn in Hda.
+      apply (kinv_set_dial ks a d (DFail 2%N false) (AFailing d) K); cbn; try discriminate; auto.
       * right. exists DPend. split; [exact Ed|discriminate].
       * eapply kj_d_dom; eauto.
       * split; eauto.
@@ -1605,7 +1630,8 @@ Proof.
     destruct (k_d ks d) as [[a [| |cls [|]]]|] eqn:Ed; try exact K.
     match goal with |- context[kwake ?x] => destruct (kwake x) as [ks2 rets] eqn:Ew; set (ks1 := x) in * end.
     cbn. apply (kinv_wake ks1 ks2 rets); [|now apply kwake_rel].
-    unfold ks1. apply (kinv_set_dial ks a d (DFail cls true) AIdle K); cbn; try discriminate; auto.
+    unfold ks1. pose proof (kj_d_as ks K d a (DFail cls false) Ed) as Hda. cbn in Hda.
+    apply (kinv_set_dial ks a d (DFail cls true) AIdle K); cbn; try discriminate; auto.
     + right. eexists. split; [exact Ed|discriminate].
     + eapply kj_d_dom; eauto.
   - (* ERelease *)
@@ -1624,7 +1650,8 @@ Proof.
       - destruct (k_d ks d) as [[a0 [| |c0 f0]]|] eqn:E; try discriminate. inversion Hk; subst. eauto.
       - inversion Hk; subst. eapply kj_sconn; eauto. }
     destruct Hdok as (a0 & Ha0). rewrite Ha0.
-    apply (kinv_close _ h a0 K1); [|exact Ha0].
+    apply (kinv_close _ h a0 K1); [|exact Ha0|].
+    2:{ cbn. intros Hin. pose proof (kj_closed ks K h Hin i t Ei Hk). congruence. }
     intros j Hj. destruct (kholds _ h j) eqn:Eh; [|reflexivity].
     assert (Hex : existsb (kholds (kset_thr ks (upd (k_thr ks) i
                   (Some {| k_src := k_src t; k_passed := k_passed t; k_ret := Some (OConn h); k_rel := true |}))) h)
@@ -1632,8 +1659,9 @@ Proof.
     cbn in Eex. rewrite Hex in Eex. discriminate.
   - (* ECancel *)
     destruct (k_d ks i) as [[a [| |cls f]]|] eqn:Ed; cbn; try (apply kinv_set_cancel; exact K).
+    pose proof (kj_d_as ks K i a DPend Ed) as Hda. cbn in Hda.
     apply (kinv_set_dial (kset_cancel ks (upd (k_cancel ks) i true)) a i (DFail 1%N false) (AFailing i));
-      cbn; try discriminate.
+      cbn; try discriminate; auto.
     + apply kinv_set_cancel; exact K.
     + right. exists DPend. split; [exact Ed|discriminate].
     + eapply kj_d_dom; eauto.
@@ -2072,4 +2100,138 @@ Proof.
     + vm_compute. do 4 right. left. reflexivity.
     + vm_compute. right. left. reflexivity.
   - do 2 eexists. split; [vm_compute; reflexivity|]. vm_compute. left. reflexivity.
+Qed.
+
+(** ** K_P soundness, one-dial-in-flight clause *)
+
+Definition dial_in (c : trace) (d a : nat) : Prop :=
+  exists e o, In (e, o) c /\ In (d, a) (o_dials (canon o)).
+
+Definition ended_in (c : trace) (d : nat) : Prop :=
+  exists e o, In (e, o) c /\ o_ign (canon o) = false /\
+              (e = EDial d true \/ e = EDial d false \/ e = ECancel d).
+
+Lemma pairs_eqb_eq a b : pairs_eqb a b = true -> a = b.
+Proof.
+  apply list_eqb_eq. intros [x y] [x' y']; cbn. intros H. apply andb_true_iff in H. destruct H as [H1 H2].
+  apply Nat.eqb_eq in H1. apply Nat.eqb_eq in H2. congruence.
+Qed.
+
+Lemma obs_eqb_dials a b : obs_eqb a b = true -> o_dials a = o_dials b.
+Proof.
+  unfold obs_eqb. intros H. repeat (apply andb_true_iff in H; destruct H as [H ?]).
+  now apply pairs_eqb_eq.
+Qed.
+
+Lemma kobs_dials ign ks r j dl f x : In x (o_dials (kobs ign ks r j dl f)) <-> In x dl.
+Proof. unfold kobs, canon. cbn. apply In_sort_key. Qed.
+
+Lemma kstep_dials ks e d a :
+  In (d, a) (o_dials (snd (kstep ks e))) ->
+  e = EReq d a true /\ k_as ks a = AIdle /\ k_d (fst (kstep ks e)) d = Some (a, DPend).
+Proof.
+  unfold kstep, kignored.
+  repeat match goal with
+         | |- context[match ?x with _ => _ end] => destruct x eqn:?
+         | |- context[if ?x then _ else _] => destruct x eqn:?
+         end; cbn [fst snd]; intros H; apply (proj1 (kobs_dials _ _ _ _ _ _ _)) in H;
+    try contradiction.
+  destruct H as [H|[]]. inversion H; subst. cbn. rewrite upd_same. auto.
+Qed.
+
+Lemma kstep_d_mono ks e d a o :
+  kinv ks -> k_d ks d = Some (a, o) ->
+  exists o', k_d (fst (kstep ks e)) d = Some (a, o') /\
+    (o = DPend -> o' = DPend \/
+       (o_ign (snd (kstep ks e)) = false /\ (e = EDial d true \/ e = EDial d false \/ e = ECancel d))).
+Proof.
+  intros K Hd.
+  assert (Same : forall ks' (X : Prop), k_d ks' = k_d ks ->
+            exists o', k_d ks' d = Some (a, o') /\ (o = DPend -> o' = DPend \/ X)).
+  { intros ks' X E. exists o. rewrite E. auto. }
+  destruct e as [i a0 known|i|d0 ok|d0|i|i]; cbn [kstep].
+  - destruct (k_thr ks i) eqn:Ei; [apply Same; reflexivity|].
+    pose proof (kd_none_of_fresh ks i K Ei) as Hdi.
+    assert (Hne : d <> i) by congruence.
+    destruct (k_cancel ks i); [exists o; cbn; auto|].
+    destruct (k_as ks a0); [destruct known|..]; cbn [fst snd]; exists o; cbn; try rewrite upd_other by exact Hne; auto.
+  - destruct (k_thr ks i) as [t|]; [|exists o; auto].
+    destruct (k_ret t); [exists o; auto|]. destruct (k_passed t); [exists o; auto|].
+    match goal with |- context[kwake ?x] => destruct (kwake x) as [ks2 rets] eqn:Ew end.
+    cbn [fst snd]. destruct (kwake_rel _ _ _ Ew) as (_ & Hd2 & _). exists o. rewrite Hd2. cbn. auto.
+  - destruct (k_d ks d0) as [[a1 [| |cls f]]|] eqn:Ed; try (exists o; auto; fail).
+    destruct ok.
+    + match goal with |- context[kwake ?x] => destruct (kwake x) as [ks2 rets] eqn:Ew end.
+      cbn [fst snd]. destruct (kwake_rel _ _ _ Ew) as (_ & Hd2 & _). rewrite Hd2. cbn.
+      upd_cases d d0; [subst d0|exists o; auto].
+      assert (a1 = a /\ o = DPend) by (split; congruence). destruct H as [-> ->].
+      exists DOk. split; [reflexivity|]. intros _. right. auto.
+    + cbn. upd_cases d d0; [subst d0|exists o; auto].
+      assert (a1 = a /\ o = DPend) by (split; congruence). destruct H as [-> ->].
+      eexists. split; [reflexivity|]. intros _. right. auto.
+  - destruct (k_d ks d0) as [[a1 [| |cls [|]]]|] eqn:Ed; try (exists o; auto; fail).
+    match goal with |- context[kwake ?x] => destruct (kwake x) as [ks2 rets] eqn:Ew end.
+    cbn [fst snd]. destruct (kwake_rel _ _ _ Ew) as (_ & Hd2 & _). rewrite Hd2. cbn.
+    upd_cases d d0; [subst d0|exists o; auto].
+    assert (a1 = a) by congruence. subst a1.
+    eexists. split; [reflexivity|]. intros ->. congruence.
+  - destruct (k_thr ks i) as [t|]; [|exists o; auto].
+    destruct (k_ret t) as [[h| |cls]|]; try (exists o; auto; fail).
+    destruct (k_rel t); [exists o; auto|].
+    match goal with |- context[existsb ?f ?l] => destruct (existsb f l) end; cbn [fst snd]; [exists o; auto|].
+    destruct (k_d ks h) as [[a1 o1]|]; exists o; cbn; auto.
+  - destruct (k_d ks i) as [[a1 [| |cls f]]|] eqn:Ed; cbn [fst snd]; try (exists o; cbn; auto; fail).
+    cbn. upd_cases d i; [subst i|exists o; auto].
+    assert (a1 = a /\ o = DPend) by (split; congruence). destruct H as [-> ->].
+    eexists. split; [reflexivity|]. intros _. right. auto.
+Qed.
+
+Lemma kreach_dials c ks :
+  kreach c ks -> forall d a, dial_in c d a -> exists o, k_d ks d = Some (a, o) /\ (o = DPend \/ ended_in c d).
+Proof.
+  induction 1 as [|c ks e o Hr IH Hacc]; intros d a (e0 & o0 & Hin & Hd).
+  - destruct Hin.
+  - destruct (kreach_inv c ks Hr) as (K & _ & _).
+    destruct (obs_eqb_fields _ _ Hacc) as (Hign & _ & _).
+    pose proof (obs_eqb_dials _ _ Hacc) as Hdl.
+    apply in_app_iff in Hin. destruct Hin as [Hin|[E|[]]].
+    + destruct (IH d a) as (o1 & Hk & Ho1); [exists e0, o0; auto|].
+      destruct (kstep_d_mono ks e d a o1 K Hk) as (o' & Hk' & Hm). exists o'. split; [exact Hk'|].
+      destruct Ho1 as [->|(e1 & ob1 & Hin1 & Hx)].
+      * destruct (Hm eq_refl) as [->|(Hig & He)]; [left; reflexivity|right].
+        exists e, o. split; [apply in_app_iff; right; left; reflexivity|]. split; [congruence|exact He].
+      * right. exists e1, ob1. split; [apply in_app_iff; left; exact Hin1|exact Hx].
+    + inversion E; subst e0 o0. rewrite Hdl in Hd.
+      destruct (kstep_dials ks e d a Hd) as (_ & _ & Hk). exists DPend. auto.
+Qed.
+
+(** in a case that K_P accepts, when a Dial call to an address is observed,
+    every Dial call to the same address observed before it has been ended
+    (let return, or its context cancelled) by an applied event: no two Dial
+    calls to one address are in flight together *)
+Theorem K_sound_one_dial_in_flight c :
+  kaccepts c = true ->
+  forall pre e o post, c = pre ++ (e, o) :: post ->
+  forall d2 a, In (d2, a) (o_dials (canon o)) ->
+  forall d1, dial_in pre d1 a -> ended_in pre d1.
+Proof.
+  intros Ha pre e o post -> d2 a Hd2 d1 Hd1.
+  destruct (kaccepts_kreach pre [] kinit ((e, o) :: post) kr_nil Ha) as (ks & Hk & Hacc).
+  cbn [app] in Hk. cbn in Hacc. destruct (kstep ks e) as [ks' rk] eqn:Es.
+  apply andb_true_iff in Hacc. destruct Hacc as [Hacc _].
+  destruct (kreach_inv pre ks Hk) as (K & _ & _).
+  rewrite (obs_eqb_dials _ _ Hacc) in Hd2.
+  assert (Hd2' : In (d2, a) (o_dials (snd (kstep ks e)))) by now rewrite Es.
+  destruct (kstep_dials ks e d2 a Hd2') as (_ & Hidle & _).
+  destruct (kreach_dials pre ks Hk d1 a Hd1) as (o1 & Hk1 & [->|Hend]); [|exact Hend].
+  pose proof (kj_d_as ks K d1 a DPend Hk1) as X. cbn in X. congruence.
+Qed.
+
+Example ex_kaccepts_dials :
+  kaccepts ex_case = true /\ dial_in (firstn 8 ex_case) 0 0 /\
+  (exists e o, nth_error ex_case 8 = Some (e, o) /\ In (2, 0)%nat (o_dials (canon o))).
+Proof.
+  split; [vm_compute; reflexivity|]. split.
+  - exists (EReq 0 0 true). eexists. split; [vm_compute; left; reflexivity|vm_compute; left; reflexivity].
+  - do 2 eexists. split; [vm_compute; reflexivity|vm_compute; left; reflexivity].
 Qed.
